@@ -106,7 +106,7 @@ theorem validate_skew (o : Obj) (h : Nat) (g : Seg) (s : SecBuf)
   refine ⟨(g, h), ?_, ?_⟩
   · rw [List.mem_zipIdx_iff_getElem?]; exact hg
   · have hc : segConflict o.secs g = true := by
-      unfold segConflict
+      rw [segConflict_eq]
       rw [hfind]
       simp only [hload, beq_self_eq_true, hfs, decide_true, Bool.and_self, Bool.true_and,
         validate_addr_ne, get_virtual_addr, bne_iff_ne, ne_eq]
@@ -128,7 +128,7 @@ theorem validate_skew_only_if (o : Obj) (h : Nat) (hc : Complaint.conflict h ∈
     by_cases hcf : segConflict o.secs g = true
     · simp only [hcf, if_true, Option.some.injEq, Complaint.conflict.injEq] at he
       subst he
-      unfold segConflict at hcf
+      rw [segConflict_eq] at hcf
       split at hcf
       · exact Bool.noConfusion hcf
       · rename_i s hs
@@ -180,7 +180,7 @@ theorem validate_silent (o : Obj) (h : LayoutOk o) : validate o = [] := by
     have hgm : g ∈ o.segs := by
       rw [List.mem_zipIdx_iff_getElem?] at hm; exact List.mem_of_getElem? hm
     have hcf : segConflict o.secs g = false := by
-      unfold segConflict
+      rw [segConflict_eq]
       split
       · rfl
       · rename_i s hs
